@@ -83,12 +83,8 @@ def sched_writer_states(h, d, tier):
                 r.sql("w1", "COMMIT", commits=True)
             park_writer(r, st, sync_off)
             if not aged:
-                try:
-                    r.open("h1")
-                except Infra:
-                    # Open itself reads the header without a lock; a refusal here is recorded as a failed lock attempt
-                    raise
-            ops = READ_OPS if tier == "thorough" else READ_OPS[:4] + [READ_OPS[4 + i % 4]]
+                r.open("h1")
+            ops = READ_OPS
             for opn in ops:
                 r.start("h1", c06.OPS[opn], gate_on=["L", "l", "U"])
                 r.finish("h1")
